@@ -135,7 +135,7 @@ Qed.
 Lemma le_user_less_masks u ms :
   (forall p, In p ms -> In p (u_masks u)) -> le_user (User (u_name u) ms (u_auth u) (u_secure u)) u.
 Proof.
-  intros Hsub h. unfold recog_ever, mask_match. cbn [u_auth u_masks]. intro H.
+  intros Hsub h. unfold recog_ever, mask_match. cbn [u_auth u_masks u_secure]. intro H.
   apply orb_true_iff in H as [H|H]; [rewrite H; reflexivity|].
   apply existsb_exists in H as [p [Hin Hp]]. apply orb_true_iff. right. apply existsb_exists. exists p. auto.
 Qed.
